@@ -1,4 +1,4 @@
 SPECIFICATION Spec
-CONSTANTS MaxDepth = 3 Sel = "core" WNeg = 1 WHi = 1 K = 2 Full2 = FALSE PreFixAssign = FALSE
+CONSTANTS MaxDepth = 4 Sel = "core" WNeg = 1 WHi = 1 K = 2 Full2 = FALSE PreFixAssign = FALSE
 INVARIANTS Inv_MemorySafe Inv_Refines Inv_AbsOK
 CHECK_DEADLOCK FALSE
